@@ -69,17 +69,25 @@ def perturbed_texts(mnem):
               "E-50000", "E*E*1"[:3], "65535/1", "1/0"):
         for tmpl in ("#{}", "{}", "<{}", ">{}", "[{}]", "{},X", "{},Y", "[{},X]", "{},PCR", "[{},U]"):
             yield tmpl.format(e)
-    for t in ("A,X+", "B,-Y", "D,X++", "A,--S", "5,X+", "5,--Y", "[A,X++]", "[5,--Y]", "#5,X", "#5,PCR", "#,X", ",PCR", "[,PCR]", "A,PCR", "[D,PCR]"):
+    for t in ("A,X+", "B,-Y", "D,X++", "A,--S", "5,X+", "5,--Y", "[A,X++]", "[5,--Y]", "#5,X", "#5,PCR", "#,X", ",PCR", "[,PCR]", "A,PCR", "[D,PCR]",
+              "[#5,X]", "[#5]", "[#$1234]", "[#L,PCR]", "[#E,Y]", "[#L]", "#L", "<L", ">L", "#5", "<5", ">5"):
         yield t
     yield "A,B,X,Y,U,S,PC,CC,DP,D"
     yield "A,,B"
     yield "A,B,"
 
 
-def token_strings(maxlen):
+def token_strings(maxlen, ren=None):
+    toks = TOKENS if ren is None else [ren[0] if t == "E" else ren[1] if t == "L" else t for t in TOKENS]
     for n in range(1, maxlen + 1):
-        for tup in itertools.product(TOKENS, repeat=n):
+        for tup in itertools.product(toks, repeat=n):
             yield "".join(tup)
+
+
+# other spellings of the two symbols (constant, label): names made of register letters, names that contain a register name
+RENAMES = [("AB", "BD"), ("ABD", "DD"), ("XS", "SU"), ("PCRX", "CCX"), ("EA", "DPY")]
+REPS_NAMES = ["LDA", "LEAX", "JMP", "STX"]
+SYM_RE = __import__("re").compile(r"(?<![\w$'])[EL](?!\w)")
 
 
 def cases(tier, seed):
@@ -96,6 +104,18 @@ def cases(tier, seed):
             if t not in seen:
                 seen.add(t)
                 yield {"mnem": mnem, "text": t, "src": "tokens"}
+    for mnem in REPS_NAMES:
+        for ren in RENAMES:
+            seen = set()
+            for t in token_strings(4 if tier == "thorough" else 3, ren):
+                if (ren[0] in t or ren[1] in t) and t not in seen:
+                    seen.add(t)
+                    yield {"mnem": mnem, "text": t, "src": "names", "ren": list(ren)}
+            for t0 in perturbed_texts(mnem):
+                t = SYM_RE.sub(lambda m: ren[0] if m.group(0) == "E" else ren[1], t0)
+                if t != t0 and t not in seen:
+                    seen.add(t)
+                    yield {"mnem": mnem, "text": t, "src": "names", "ren": list(ren)}
     rest = [m for m in R.ALL_MNEMONICS if m not in REPS]
     for mnem in rest:
         for t in token_strings(3 if tier == "thorough" else 2):
@@ -104,7 +124,8 @@ def cases(tier, seed):
 
 
 def build(case):
-    return ["E EQU 300", " ORG $2000", "L NOP", " {} {}".format(case["mnem"], case["text"]), "ZZ9 NOP"]
+    e, lb = case.get("ren", ("E", "L"))
+    return ["{} EQU 300".format(e), " ORG $2000", "{} NOP".format(lb), " {} {}".format(case["mnem"], case["text"]), "ZZ9 NOP"]
 
 
 def all_programs(tier):
@@ -140,7 +161,8 @@ def check_case(case):
         bad("listing reserves {} but {} emitted".format(c02d(reserved), len(body)), "equal", "bytes {}".format(body.hex().upper()))
     else:
         try:
-            intent = R.parse_operand(mnem, text, SYMVALS)
+            symvals = SYMVALS if "ren" not in case else {case["ren"][0]: 300, case["ren"][1]: 0x2000, "@stmt": 0x2001}
+            intent = R.parse_operand(mnem, text, symvals)
         except Exception:
             intent = None
         if intent is not None:
@@ -165,8 +187,9 @@ def describe(tier):
         "alphabet": "operand texts for {} representative mnemonics (one per row shape incl. specials, inherent, branches): (a) every operand "
                     "form x values V16+{{65536,70000,-32769,300,4660}} x registers {} x indirection, and branch targets L+-n / n+L for n around the short-branch "
                     "range; (b) every token string over {}; "
+                    "(c) the token strings and the symbol-using texts of (a) again for {} with the two symbols spelt {} (names made of register letters or containing a register name); "
                     "all other mnemonics with every token string of length <= {}".format(
-                        len(REPS), BAD_REGS, TOKENS, 3 if tier == "thorough" else 2),
+                        len(REPS), BAD_REGS, TOKENS, REPS_NAMES, RENAMES, 3 if tier == "thorough" else 2),
         "bound": "token strings of length <= {} ({} for {})".format(4 if tier == "thorough" else 3, 5 if tier == "thorough" else 4, REPS_DEEP),
         "oracle": "if accepted: bytes between the neighbouring NOPs decode (datasheet decoder) as exactly one instruction of that mnemonic, "
                   "all bytes consumed, count = ZZ9 - listed address; texts that the documented grammar parses into value-out-of-range / "
